@@ -61,13 +61,18 @@ CLAIMED["C01"] = (
 CLAIMED["C11"] = (
     "model-based: scripted visitors over grammar-generated ASTs compared call by call with a recursive "
     "reference traversal (dataclass reflection, source order), incl. edit results, identity of untouched "
-    "subtrees, immutability of the input and ParallelVisitor members vs their solo runs",
+    "subtrees, immutability of the input and ParallelVisitor members vs their solo runs; the same scripts "
+    "wrapped in TypeInfoVisitor over schema-directed documents against a recursive, stack-free reference of "
+    "the eleven TypeInfo getters",
     "For generated trees of every node kind and scripts of skip/break/remove/replace decisions on enter or "
     "leave (generic or kind-specific handlers) the implementation's call log (phase, kind, key, path, "
     "parent, ancestors) must equal the reference's, the edited result must equal the reference's result "
     "with untouched subtrees shared by identity, the input must stay unchanged, a no-edit visit must return "
     "the same object, parallel members must see their solo logs, and every decision on the root must return "
-    "without raising.",
+    "without raising; a visitor wrapped in TypeInfoVisitor must see the same call log and return the same "
+    "tree as bare, every TypeInfo getter must report the reference value of the node's position at each "
+    "enter and leave whatever was skipped or removed elsewhere, and be back to its initial value after a "
+    "complete traversal.",
     "Child order is derived from source offsets of the parsed tree; results after BREAK or root removal are "
     "not compared.",
     "DESIGN.md 3/C11",
